@@ -517,6 +517,12 @@ func run(c *wk.Case) {
 			size = 1
 		}
 		f := simgen.GenFont(t, kind, size)
+		if o, ok := f.Outlines.(*glyf.Outlines); ok && t.Chance(1, 20) {
+			// a "glyf" table whose size is at the limit of the short "loca" format
+			if simgen.PadGlyfTo(t, o, simgen.LocaEdges[t.Draw(len(simgen.LocaEdges))]) {
+				c.Count("fonts_with_glyf_size_at_the_short_loca_limit", 1)
+			}
+		}
 		big := false
 		if mode == 0 && t.Chance(1, 25) {
 			// the top of the glyph-id range (TrueType, mostly blank glyphs),
